@@ -5,6 +5,7 @@ import VyxalModel.Model.Strings
 import VyxalModel.Model.Transpile
 import VyxalModel.Model.Placed
 import VyxalModel.Model.WFPy
+import VyxalModel.Model.DictCompress
 import VyxalModel.Model.Balance
 import VyxalModel.Model.PyDump
 import VyxalModel.Gen.Elements
@@ -52,6 +53,8 @@ def placedCmd (src : List Nat) : String :=
     match transpileAst (genEnv false) tree with
     | .ok py => s!"placed={p} vtok={v} bpl={b} wf={if PyAst.wfL false false py then "T" else "F"} bal={if Bal.balancedTop py then "T" else "F"}"
     | .error e => s!"placed={p} vtok={v} bpl={b} wf=ERR {showTErr e}"
+
+def dictMaxLen : Nat := Gen.dictionaryContents.foldl (fun m w => max m w.length) 0
 
 def parseIntS (s : String) : Int := s.toInt?.getD 0
 def parseOptInt (s : String) : Option Int := if s == "N" then none else s.toInt?
@@ -327,6 +330,8 @@ def answer (cmd arg : String) : String :=
   | "escstr" => showOptCps (some (escapeString (parseCps arg)))
   | "pybody" => showOptCps (pyStringBody (parseCps arg))
   | "placed" => placedCmd (parseCps arg)
+  | "dictfacts" => s!"{Gen.dictionaryContents.length} {Gen.compression.length} {dictMaxLen}"
+  | "dictcomp" => showOptCps (some (optimalCompress Gen.compression Gen.dictionaryContents dictMaxLen (parseCps arg)))
   | "transpile" => transpileCmd false (parseCps arg)
   | "transpileD" => transpileCmd true (parseCps arg)
   | "pydecode" => (match pyDecode (parseCps arg) with
